@@ -1,11 +1,27 @@
 (* C17 -- Explicit matrices describe the same MDP as the functional description. *)
 From Coq Require Import QArith Qabs List Arith Bool.
-From MdpaxV Require Import Model.QFun Model.MDP Model.Bellman Model.Matrices Model.CorrSolve Proofs.C17P.
+From Coq Require Import Qreduction.
+From MdpaxV Require Import Model.QFun Model.MDP Model.Bellman Model.Matrices Model.CorrSolve Proofs.C17P Proofs.GenMatricesP.
+From MdpaxGen Require Import GenMatrices.
 Import ListNotations.
 Open Scope Q_scope.
 
 Definition succ_in_range (M : mdp) : Prop :=
   forall s a e, (s < nS M)%nat -> (a < nA M)%nat -> (e < nE M)%nat -> (nxt M s a e < nS M)%nat.
+
+(* tie by translation: gen/GenMatrices.v is regenerated from Problem.build_transition_and_reward_matrices on every run (the method
+   is interpreted statement by statement over tensors with named axes: the vmaps' in_axes, the reductions, the slices, the two
+   accumulation loops with the functional scatter-add, the deviation test, the unravelled argmax, the guarded normalisation).
+   The builder the source describes IS the modelled builder `build` that every theorem below is about: it raises exactly when
+   `build` reports an error and names the same pair, and otherwise returns the same matrices, entry by entry, for every problem *)
+Theorem generated_builder_is_the_modelled_builder : forall (M : mdp) tol,
+  build M tol =
+  if gen_raises (nxt M) (prb M) (nS M) (nA M) (nE M) tol
+  then BuildError (fst (gen_worst_pair (nxt M) (prb M) (nS M) (nA M) (nE M))) (snd (gen_worst_pair (nxt M) (prb M) (nS M) (nA M) (nE M)))
+  else BuildOk (map (fun a => map (fun s => map (fun s' => Qred (gen_P_final (nxt M) (prb M) (nS M) (nA M) (nE M) a s s')) (seq 0 (nS M))) (seq 0 (nS M))) (seq 0 (nA M)))
+               (map (fun s => map (fun a => Qred (gen_R_final (rew M) (prb M) (nE M) s a)) (seq 0 (nA M))) (seq 0 (nS M))).
+Proof. exact gen_build_eq. Qed.
+Print Assumptions generated_builder_is_the_modelled_builder.
 
 (* transition entry = total probability of the events leading there (several events accumulate) *)
 Theorem P_entry_spec : forall (M : mdp) a s s',
